@@ -25,6 +25,11 @@ RULE = (
     "assembled and >=1 instruction or datum compared; distinct = (config, "
     "multiset of line kinds)."
 )
+RULE += (
+    " One case in 40 is a form the assembler must refuse (variant on one side of a symbol difference, branch target with offset, symbol minus constant, ...): UnsupportedAssemblyError, never a result;"
+    " CFI directives standing at one address (separated by labels) must come out in source order;"
+    " MIPS direct calls also as bal / bltzal."
+)
 ASSUMPTIONS = [
     "encoding table verified by tools/selftest_vocab.py; MIPS branches carry their assembler-filled delay-slot nop",
     "the exact block partition is not prescribed beyond the stated invariants",
